@@ -292,6 +292,9 @@ func match(real interface{}, v *V, path string, o MatchOpt) (res string) {
 		}
 	case Float:
 		f, ok := real.(float64)
+		if ok && math.IsNaN(f) && math.IsNaN(v.F) {
+			break // a NaN is a NaN: payload bits are not part of any statement
+		}
 		if !ok || f != v.F || (o.FloatBits && math.Float64bits(f) != math.Float64bits(v.F)) {
 			return fmt.Sprintf("%s: want float64 %v, got %T(%v)", path, v.F, real, real)
 		}
